@@ -24,3 +24,213 @@ fn('dsplib::conj', M, sig='dsplib::real_t (dsplib::real_t)', key='conj(real)', s
    ensures=[('identity', 'result == x')])
 fn('dsplib::conj', M, sig='dsplib::cmplx_t (dsplib::cmplx_t)', key='conj(cmplx)', serves=['C17'], pure=True,
    ensures=[('conjugate', 'And(result.re == x.re, result.im == -x.im)')])
+
+# ---------------------------------------------------------------------------------------------------
+# C17: definitional conformance of element / reduction functions. Each postcondition is the textbook
+# definition written over reals and the same uninterpreted libm symbols the prelude uses (A1/A2): a wrong
+# constant, swapped argument, dropped term or wrong normalisation fails the clause.
+from engine.prelude import COS, SIN, EXP, LOG, LOG2, LOG10, SQRT, ATAN, ATAN2, POW, TANH   # noqa: E402
+from engine.core import PI                                                                      # noqa: E402
+import z3 as _z3                                                                                # noqa: E402
+
+
+def zfabs(x):
+    return _z3.If(x >= 0, x, -x)
+
+
+def zround(x):
+    return _z3.ToReal(_z3.If(x >= 0, _z3.ToInt(x + _z3.RealVal('1/2')), -_z3.ToInt(-x + _z3.RealVal('1/2'))))
+
+
+def atan2_ax(y, x):
+    """atan2 in terms of atan (textbook case split; A2)"""
+    return _z3.And(_z3.Implies(x > 0, ATAN2(y, x) == ATAN(y / x)),
+                   _z3.Implies(_z3.And(x < 0, y >= 0), ATAN2(y, x) == ATAN(y / x) + PI),
+                   _z3.Implies(_z3.And(x < 0, y < 0), ATAN2(y, x) == ATAN(y / x) - PI),
+                   _z3.Implies(_z3.And(x == 0, y > 0), ATAN2(y, x) == PI / 2),
+                   _z3.Implies(_z3.And(x == 0, y < 0), ATAN2(y, x) == -PI / 2),
+                   _z3.Implies(_z3.And(x == 0, y == 0), ATAN2(y, x) == 0))
+
+
+LIBM = {'ATAN2_AX': atan2_ax, 'COS': COS, 'SIN': SIN, 'EXP': EXP, 'LOG': LOG, 'LOG2': LOG2, 'LOG10': LOG10, 'SQRT': SQRT, 'ATAN': ATAN,
+        'ATAN2': ATAN2, 'POW': POW, 'TANH': TANH, 'PI': PI, 'fabs': zfabs, 'rnd': zround}
+
+
+def elementwise(name, sig, key, expr, inloop='r', src='arr', loopsrc=None, extra=()):
+    """r[k] == expr(src[k]) for all k, same length; loop invariant derived from the same expression"""
+    e_post = expr.replace('$', 'old.%s[k]' % src if False else '%s[k]' % src)
+    e_inv = expr.replace('$', '%s[k]' % (loopsrc or src))
+    fn(name, M, sig=sig, key=key, serves=['C17', 'C05'], pure=True, extra_env=LIBM,
+       ensures=[('length', 'result.len == %s.len' % src),
+                ('definition', 'forall(lambda k: Implies(And(0 <= k, k < %s.len), result[k] == %s))' % (src, e_post))] + list(extra),
+       loops={1: {'inv': [('len', '%s.len == %s.len' % (inloop, src)),
+                          ('done', 'forall(lambda k: Implies(And(0 <= k, k < i), %s[k] == %s))' % (inloop, e_inv)),
+                          ('todo', 'forall(lambda k: Implies(And(i <= k, k < %s.len), %s[k] == pre.%s[k]))' % (inloop, inloop, inloop))]}})
+
+
+RA = '(const dsplib::arr_real &)'
+CA = '(const dsplib::arr_cmplx &)'
+elementwise('dsplib::abs', 'dsplib::arr_real ' + RA, 'abs(arr_real)', 'fabs($)')
+elementwise('dsplib::log', 'dsplib::arr_real ' + RA, 'log(arr_real)', 'LOG($)')
+elementwise('dsplib::log2', 'dsplib::arr_real ' + RA, 'log2(arr_real)', 'LOG2($)')
+elementwise('dsplib::log10', 'dsplib::arr_real ' + RA, 'log10(arr_real)', 'LOG10($)')
+elementwise('dsplib::sin', 'dsplib::arr_real ' + RA, 'sin(arr_real)', 'SIN($)')
+elementwise('dsplib::cos', 'dsplib::arr_real ' + RA, 'cos(arr_real)', 'COS($)')
+elementwise('dsplib::exp', 'dsplib::arr_real ' + RA, 'exp(arr_real)', 'EXP($)')
+
+fn('dsplib::abs', M, sig='dsplib::arr_real ' + CA, key='abs(arr_cmplx)', serves=['C17', 'C05'], pure=True, extra_env=LIBM,
+   ensures=[('length', 'result.len == arr.len'),
+            ('definition', 'forall(lambda k: Implies(And(0 <= k, k < arr.len), result[k] == SQRT(arr[k].re*arr[k].re + arr[k].im*arr[k].im)))')],
+   loops={1: {'inv': [('len', 'r.len == arr.len'),
+                      ('done', 'forall(lambda k: Implies(And(0 <= k, k < i), r[k] == SQRT(arr[k].re*arr[k].re + arr[k].im*arr[k].im)))')]}})
+fn('dsplib::abs2', M, sig='dsplib::arr_real ' + CA, key='abs2(arr_cmplx)', serves=['C17', 'C05'], pure=True,
+   ensures=[('length', 'result.len == x.len'),
+            ('definition', 'forall(lambda k: Implies(And(0 <= k, k < x.len), result[k] == x[k].re*x[k].re + x[k].im*x[k].im))')],
+   loops={1: {'inv': [('len', 'r.len == x.len'),
+                      ('done', 'forall(lambda k: Implies(And(0 <= k, k < i), r[k] == x[k].re*x[k].re + x[k].im*x[k].im))')]}})
+fn('dsplib::abs2', M, sig='dsplib::arr_real ' + RA, key='abs2(arr_real)', serves=['C17'], pure=True,
+   ensures=[('length', 'result.len == x.len'),
+            ('definition', 'forall(lambda k: Implies(And(0 <= k, k < x.len), result[k] == x[k]*x[k]))')])
+fn('dsplib::power', M, sig='dsplib::arr_real (const dsplib::arr_real &, int)', key='power(arr_real,int)', serves=['C17'],
+   trusted=True, pure=True, notes='assumed: power(x, 2)[k] = x[k]^2 etc.; the generic _power template is not lowered yet',
+   ensures=[('length', 'result.len == x.len'),
+            ('square', 'Implies(n == 2, forall(lambda k: Implies(And(0 <= k, k < x.len), result[k] == x[k]*x[k])))')])
+fn('dsplib::real', M, sig='dsplib::arr_real ' + CA, key='real(arr_cmplx)', serves=['C17', 'C05'], pure=True,
+   ensures=[('length', 'result.len == x.len'), ('definition', 'forall(lambda k: Implies(And(0 <= k, k < x.len), result[k] == x[k].re))')],
+   loops={1: {'inv': [('len', 'r.len == x.len'), ('done', 'forall(lambda k: Implies(And(0 <= k, k < i), r[k] == x[k].re))')]}})
+fn('dsplib::imag', M, sig='dsplib::arr_real ' + CA, key='imag(arr_cmplx)', serves=['C17', 'C05'], pure=True,
+   ensures=[('length', 'result.len == x.len'), ('definition', 'forall(lambda k: Implies(And(0 <= k, k < x.len), result[k] == x[k].im))')],
+   loops={1: {'inv': [('len', 'r.len == x.len'), ('done', 'forall(lambda k: Implies(And(0 <= k, k < i), r[k] == x[k].im))')]}})
+fn('dsplib::conj', M, sig='dsplib::arr_cmplx ' + CA, key='conj(arr_cmplx)', serves=['C17', 'C05'], pure=True,
+   ensures=[('length', 'result.len == x.len'),
+            ('definition', 'forall(lambda k: Implies(And(0 <= k, k < x.len), And(result[k].re == x[k].re, result[k].im == -x[k].im)))')],
+   loops={1: {'inv': [('len', 'r.len == x.len'),
+                      ('done', 'forall(lambda k: Implies(And(0 <= k, k < i), And(r[k].re == x[k].re, r[k].im == -x[k].im)))'),
+                      ('todo', 'forall(lambda k: Implies(And(i <= k, k < r.len), r[k] == x[k]))')]}})
+fn('dsplib::expj', M, sig='dsplib::arr_cmplx ' + RA, key='expj(arr_real)', serves=['C17', 'C05'], pure=True, extra_env=LIBM,
+   ensures=[('length', 'result.len == im.len'),
+            ('definition', 'forall(lambda k: Implies(And(0 <= k, k < im.len), And(result[k].re == COS(im[k]), result[k].im == SIN(im[k]))))')],
+   loops={1: {'inv': [('len', 'r.len == im.len'),
+                      ('done', 'forall(lambda k: Implies(And(0 <= k, k < i), And(r[k].re == COS(im[k]), r[k].im == SIN(im[k]))))')]}})
+fn('dsplib::exp', M, sig='dsplib::arr_cmplx ' + CA, key='exp(arr_cmplx)', serves=['C17', 'C05'], pure=True, extra_env=LIBM,
+   ensures=[('length', 'result.len == arr.len'),
+            ('definition', 'forall(lambda k: Implies(And(0 <= k, k < arr.len), And(result[k].re == EXP(arr[k].re)*COS(arr[k].im), result[k].im == EXP(arr[k].re)*SIN(arr[k].im))))')],
+   loops={1: {'inv': [('len', 'r.len == arr.len'),
+                      ('done', 'forall(lambda k: Implies(And(0 <= k, k < i), And(r[k].re == EXP(arr[k].re)*COS(arr[k].im), r[k].im == EXP(arr[k].re)*SIN(arr[k].im))))'),
+                      ('todo', 'forall(lambda k: Implies(And(i <= k, k < r.len), r[k] == arr[k]))')]}})
+
+# scalars
+SC = [('abs', 'dsplib::real_t (dsplib::real_t)', 'abs(real)', 'result == fabs(v)'),
+      ('abs', 'dsplib::real_t (dsplib::cmplx_t)', 'abs(cmplx)', 'result == SQRT(v.re*v.re + v.im*v.im)'),
+      ('round', 'dsplib::real_t (const dsplib::real_t &)', 'round(real)', 'result == rnd(x)'),
+      ('round', 'dsplib::cmplx_t (const dsplib::cmplx_t &)', 'round(cmplx)', 'And(result.re == rnd(x.re), result.im == rnd(x.im))'),
+      ('log', 'dsplib::real_t (const dsplib::real_t &)', 'log(real)', 'result == LOG(x)'),
+      ('log2', 'dsplib::real_t (const dsplib::real_t &)', 'log2(real)', 'result == LOG2(x)'),
+      ('log10', 'dsplib::real_t (const dsplib::real_t &)', 'log10(real)', 'result == LOG10(x)'),
+      ('exp', 'dsplib::real_t (dsplib::real_t)', 'exp(real)', 'result == EXP(v)'),
+      ('exp', 'dsplib::cmplx_t (dsplib::cmplx_t)', 'exp(cmplx)', 'And(result.re == EXP(v.re)*COS(v.im), result.im == EXP(v.re)*SIN(v.im))'),
+      ('expj', 'dsplib::cmplx_t (dsplib::real_t)', 'expj(real)', 'And(result.re == COS(im), result.im == SIN(im))'),
+      ('real', 'dsplib::real_t (dsplib::cmplx_t)', 'real(cmplx)', 'result == x.re'),
+      ('imag', 'dsplib::real_t (dsplib::cmplx_t)', 'imag(cmplx)', 'result == x.im'),
+      ('power', 'dsplib::real_t (dsplib::real_t, dsplib::real_t)', 'power(real,real)', 'result == POW(x, n)'),
+      ('pow2db', 'dsplib::real_t (dsplib::real_t)', 'pow2db(real)', 'result == 10 * LOG10(v)'),
+      ('db2pow', 'dsplib::real_t (dsplib::real_t)', 'db2pow(real)', 'result == POW(10, v / 10)'),
+      ('mag2db', 'dsplib::real_t (dsplib::real_t)', 'mag2db(real)', 'result == 20 * LOG10(v)'),
+      ('db2mag', 'dsplib::real_t (dsplib::real_t)', 'db2mag(real)', 'result == POW(10, v / 20)'),
+      ('deg2rad', 'dsplib::real_t (const dsplib::real_t &)', 'deg2rad(real)', 'result == x / 180 * PI'),
+      ('rad2deg', 'dsplib::real_t (const dsplib::real_t &)', 'rad2deg(real)', 'result == x / PI * 180'),
+      ]
+for nm, sig, key, post in SC:
+    if post.startswith('result == '):
+        fn('dsplib::' + nm, M, sig=sig, key=key, serves=['C17'], pure=True, extra_env=LIBM, value=post[len('result == '):])
+    else:
+        fn('dsplib::' + nm, M, sig=sig, key=key, serves=['C17'], pure=True, extra_env=LIBM, ensures=[('definition', post)])
+
+# principal argument: angle(v) in (-pi, pi], the textbook atan2(im, re)
+fn('dsplib::angle', M, sig='dsplib::real_t (dsplib::cmplx_t)', key='angle(cmplx)', serves=['C17'], pure=True, extra_env=LIBM,
+   body_assumes=['ATAN2_AX(v.im, v.re)'],
+   ensures=[('principal_argument', 'result == ATAN2(v.im, v.re)')])
+elementwise('dsplib::angle', 'dsplib::arr_real ' + CA, 'angle(arr_cmplx)', 'ATAN2($.im, $.re)')
+
+# reductions
+fn('dsplib::dot', M, sig='dsplib::real_t (const dsplib::arr_real &, const dsplib::arr_real &)', key='dot(real)',
+   serves=['C17', 'C05'], pure=True, throws='x1.len != x2.len',
+   ensures=[('definition', 'result == DOT(data(x1), 0, 1, data(x2), x1.len)')],
+   loops={1: {'facts': ['DOT_BASE(data(x1), 0, 1, data(x2))', 'DOT_STEP(data(x1), 0, 1, data(x2), i)'],
+              'inv': [('acc', 'acc == DOT(data(x1), 0, 1, data(x2), i)')]}})
+fn('dsplib::mean', M, sig='dsplib::real_t (const dsplib::arr_real &)', key='mean(real)', serves=['C17'], pure=True,
+   ensures=[('definition', 'result * ToReal(arr.len) == SUMR(data(arr), arr.len)')], requires=['arr.len >= 1'])
+fn('dsplib::rms', M, sig='dsplib::real_t (const dsplib::arr_real &)', key='rms(real)', serves=['C17', 'C05'], pure=True,
+   extra_env=LIBM, requires=['arr.len >= 1'],
+   ensures=[('root_mean_square', 'exists_w(lambda s2: And(result == SQRT(s2 / ToReal(arr.len)), s2 == DOT(data(arr), 0, 1, data(arr), arr.len)), sum)')],
+   loops={1: {'facts': ['DOT_BASE(data(arr), 0, 1, data(arr))', 'DOT_STEP(data(arr), 0, 1, data(arr), i)'],
+              'inv': [('acc', 'sum == DOT(data(arr), 0, 1, data(arr), i)')]}})
+fn('dsplib::max', M, sig='dsplib::real_t ' + RA, key='max(real)', serves=['C17', 'C05'], pure=True, requires=['arr.len >= 1'],
+   ensures=[('is_element', 'exists(lambda j: And(0 <= j, j < arr.len, arr[j] == result))'),
+            ('upper_bound', 'forall(lambda k: Implies(And(0 <= k, k < arr.len), arr[k] <= result))')])
+fn('dsplib::min', M, sig='dsplib::real_t ' + RA, key='min(real)', serves=['C17', 'C05'], pure=True, requires=['arr.len >= 1'],
+   ensures=[('is_element', 'exists(lambda j: And(0 <= j, j < arr.len, arr[j] == result))'),
+            ('lower_bound', 'forall(lambda k: Implies(And(0 <= k, k < arr.len), arr[k] >= result))')])
+fn('dsplib::argmax', M, sig='int ' + RA, key='argmax(real)', serves=['C17', 'C05'], pure=True, requires=['arr.len >= 1'],
+   ensures=[('range', 'And(0 <= result, result < arr.len)'),
+            ('first_maximum', 'And(forall(lambda k: Implies(And(0 <= k, k < arr.len), arr[k] <= arr[result])), forall(lambda k: Implies(And(0 <= k, k < result), arr[k] < arr[result])))')])
+fn('dsplib::argmin', M, sig='int ' + RA, key='argmin(real)', serves=['C17', 'C05'], pure=True, requires=['arr.len >= 1'],
+   ensures=[('range', 'And(0 <= result, result < arr.len)'),
+            ('first_minimum', 'And(forall(lambda k: Implies(And(0 <= k, k < arr.len), arr[k] >= arr[result])), forall(lambda k: Implies(And(0 <= k, k < result), arr[k] > arr[result])))')])
+
+# ---------------------------------------------------------------------------------------------------
+# index / shape helpers
+DRV = 'drivers/instantiate.cpp'
+
+# arange(start, stop, step): start + k*step for every k >= 0 that lies strictly before stop (Python range)
+fn('dsplib::arange', DRV, sig='(int, int, int)', key='arange(int,int,int)', serves=['C17', 'C05'], pure=True,
+   requires=[('step', 'step != 0'), ('span', 'And(start >= -1000000, start <= 1000000, stop >= -1000000, stop <= 1000000, step >= -1000000, step <= 1000000)')],
+   lets={'cnt': 'If(step > 0, If(stop > start, tdiv(stop - start + step - 1, step), 0), If(stop < start, tdiv(start - stop - step - 1, -step), 0))'},
+   throws='False',
+   ensures=[('count', 'result.len == cnt'),
+            ('values', 'forall(lambda k: Implies(And(0 <= k, k < result.len), result[k] == ToReal(old.start + k * step)))')],
+   loops={1: {'inv': [('len', 'r.len == n'), ('cur', 'start == old.start + i * step'),
+                      ('done', 'forall(lambda k: Implies(And(0 <= k, k < i), r[k] == ToReal(old.start + k * step)))')]}})
+
+for T in ('double', 'dsplib::cmplx_t'):
+    BA = 'dsplib::base_array<%s>' % T
+    fn('dsplib::_downsample', M, sig='(const %s &, int, int)' % BA, key='_downsample<%s>' % T, serves=['C17', 'C05'], pure=True,
+       requires=[('size', 'arr.len + n <= INT_MAX'), ('domain', 'Or(n <= 0, phase >= n, phase < 0, phase < arr.len)')],
+       throws='Or(n <= 0, phase >= n, phase < 0)',
+       ensures=[('count', 'Implies(n > 1, And(result.len * n >= arr.len - phase, (result.len - 1) * n < arr.len - phase, result.len >= 0))'),
+                ('identity', 'Implies(n == 1, result == arr)'),
+                ('values', 'Implies(n > 1, forall(lambda k: Implies(And(0 <= k, k < result.len), result[k] == arr[phase + k * n])))')],
+       loops={1: {'inv': [('len', 'And(r.len == nr, nr * n >= arr.len - phase, (nr - 1) * n < arr.len - phase)'),
+                          ('idx', 'And(k == phase + i * n, i >= 0)'),
+                          ('done', 'forall(lambda t: Implies(And(0 <= t, t < i), r[t] == arr[phase + t * n]))')],
+                  'dec': 'arr.len + n - k'}})
+    fn('dsplib::_upsample', M, sig='(const %s &, int, int)' % BA, key='_upsample<%s>' % T, serves=['C17', 'C05'], pure=True,
+       requires=[('size', 'arr.len * n <= INT_MAX - n')],
+       throws='Or(n <= 0, phase >= n, phase < 0)',
+       ensures=[('count', 'Implies(n > 1, result.len == arr.len * n)'),
+                ('identity', 'Implies(n == 1, result == arr)'),
+                ('values', 'Implies(n > 1, forall(lambda k: Implies(And(0 <= k, k < arr.len), result[phase + k * n] == arr[k])))'),
+                ('zeros', 'Implies(n > 1, forall(lambda t: Implies(And(0 <= t, t < result.len, Not(INSLICE(phase, n, arr.len, t))), eqv(result[t], 0))))')],
+       loops={1: {'inv': [('len', 'r.len == arr.len * n'), ('idx', 'And(k == phase + i * n, i >= 0, i <= arr.len)'),
+                          ('done', 'forall(lambda t: Implies(And(0 <= t, t < i), r[phase + t * n] == arr[t]))'),
+                          ('zeros', 'forall(lambda t: Implies(And(0 <= t, t < r.len, Not(INSLICE(phase, n, i, t))), eqv(r[t], 0)))')],
+                  'facts': ['INSLICE_BASE(phase, n)', 'INSLICE_STEP(phase, n, i)'],
+                  'dec': 'r.len + n - k'}})
+
+fn('dsplib::delayseq', DRV, serves=['C17', 'C18', 'C05'], pure=True,
+   requires=[('range', 'delay > INT_MIN')], throws='False', body_assumes=['INSLICE_AX()'],
+   ensures=[('length', 'result.len == data.len'),
+            ('shift', 'forall(lambda k: Implies(And(0 <= k, k < data.len), result[k] == If(And(k - delay >= 0, k - delay < data.len), data[k - delay], 0)))')])
+
+fn('dsplib::linspace', U, serves=['C17', 'C05'], pure=True,
+   requires=[('size', 'n <= 1000000000')],
+   throws='n < 1',
+   ensures=[('length', 'result.len == n'),
+            ('single', 'Implies(n == 1, result[0] == x2)'),
+            ('endpoints', 'Implies(n >= 2, And(result[0] == x1, Implies(n == 2, result[1] == x2)))'),
+            ('uniform', 'Implies(n >= 3, forall(lambda k: Implies(And(0 <= k, k < n), result[k] == x1 + ToReal(k) * ((x2 - x1) / ToReal(n - 1)))))')],
+   loops={1: {'inv': [('len', 'out.len == n'),
+                      ('done', 'forall(lambda k: Implies(And(0 <= k, k < i), out[k] == x1 + ToReal(k) * ((x2 - x1) / ToReal(n - 1))))')]}})
+
+fn('dsplib::dot', M, sig='dsplib::cmplx_t (const dsplib::arr_cmplx &, const dsplib::arr_cmplx &)', key='dot(cmplx)',
+   serves=['C17', 'C05'], pure=True, throws='x1.len != x2.len', loops={1: {'inv': []}})
